@@ -450,11 +450,35 @@ func (l *Linter) resolveSnippetInclusion(
 		return statements
 	}
 
+	// A snippet that includes itself, directly or through other snippets and modules,
+	// inside a nested block would be expanded forever when that block is linted
+	if slices.Contains(l.includeStack, include.Module.Value) {
+		e := &LintError{
+			Severity: ERROR,
+			Token:    include.GetMeta().Token,
+			Message:  fmt.Sprintf("Cyclic include detected: %s includes itself", include.Module.Value),
+		}
+		l.Error(e.Match(INCLUDE_STATEMENT_MODULE_LOAD_FAILED))
+		return statements
+	}
+	l.includeStack = append(l.includeStack, include.Module.Value)
+	defer func() {
+		l.includeStack = l.includeStack[:len(l.includeStack)-1]
+	}()
+
 	// snippet could not have nested include statement
 	if isRoot {
-		return l.loadVCL(include.Module.Value, snip.Data)
+		statements = l.loadVCL(include.Module.Value, snip.Data)
+	} else {
+		statements = l.loadSnippetVCL(include.Module.Value, snip.Data)
 	}
-	return l.loadSnippetVCL(include.Module.Value, snip.Data)
+	origin := slices.Clone(l.includeStack)
+	for _, s := range statements {
+		if _, ok := l.includedFrom[s]; !ok {
+			l.includedFrom[s] = origin
+		}
+	}
+	return statements
 }
 
 // Module (file) inclusion
